@@ -39,6 +39,7 @@ METHODS = {"I64": (["int64"], "int64"), "I32": (["int32"], "int32"), "I8": (["in
 
 
 BIG = "x" * 65536
+KFIELDS = ["string", "int", "int64", "float64", "bool", "int8"]      # the public fields of the engine's struct K
 
 
 def fbits(x):
@@ -184,6 +185,9 @@ def coq_case(c, o):
         res = {"same": "(RVal %s)" % coq_sval(c["expect_v"]), "different": "(RVal SOther)", "throw": "RThrow"}.get(o["out"], "RPanic")
         return "CCall %s %s %s %s %s %s" % (coq_list(CK[p] for p in c["params"]), coq_list(coq_sval(a) for a in c["args"]),
                                             retv, coq_oracle(o["orc"]), got, res)
+    if c["k"] == "ctor":
+        got = coq_list(coq_gval(g["kind"], g["p"], g.get("type")) for g in (o.get("got") or []))
+        return "CCtor %s %s %s %s %s" % (coq_list(CK[p] for p in (KFIELDS if c.get("m") == "K6" else KFIELDS[:5])), coq_list(coq_sval(a) for a in c["args"]), coq_oracle(o["orc"]), got, coq_res(o))
     if c["k"] == "generic":
         if o["out"] == "go":
             ob = "(GGo %s)" % coq_gval(o["gv"]["kind"], o["gv"]["p"], o["gv"].get("type"))
@@ -388,6 +392,25 @@ def gen_cases(ck):
                 if off["k"] == sort_m[params[pos]] and params[pos] not in ("int8", "uint8"):
                     continue
                 cases.append({"k": "method", "m": m, "args": [off if i == pos else exact_m[p][i] for i, p in enumerate(params)], "retv": rv})
+    # the reflected CONSTRUCTOR new C17K(..): 0..6 arguments; all of their field's sort; each position in
+    # turn holding a value of every other sort / a boundary value; the unsettable int8 field
+    kexact = [S("s"), I(5), I(2 ** 62), F(1.5), B(True)]
+    for n in range(0, 6):
+        cases.append({"k": "ctor", "args": kexact[:n]})
+    cpool = [N, B(True), B(False), I(0), I(-7), I(2 ** 63 - 1), I(-2 ** 63), F(0.0), F(-0.0), F(2.9), F(-2.9), F(1e19), F(float("nan")), F(float("inf")),
+             S(""), S("abc"), S("12"), S("1.5"), S("日本"), A]
+    for pos in range(5):
+        for v in cpool:
+            cases.append({"k": "ctor", "args": [v if i == pos else kexact[i] for i in range(5)]})
+            cases.append({"k": "ctor", "args": [v if i == pos else kexact[i] for i in range(pos + 1)]})
+    for v in (I(1), I(300), N, S("x")):
+        cases.append({"k": "ctor", "args": kexact + [v]})            # surplus arguments are ignored
+        cases.append({"k": "ctor", "args": kexact + [v, I(9)]})
+        cases.append({"k": "ctor", "m": "K6", "args": kexact + [v]})  # the int8 field cannot be set
+    for n in range(0, 6):
+        cases.append({"k": "ctor", "m": "K6", "args": kexact[:n]})   # ... not even with null (missing)
+    for _ in range(200 if quick else 5000):
+        cases.append({"k": "ctor", "args": [rng.choice(cpool) for _ in range(rng.randint(0, 7))]})
     # generic converter: every T x every scalar pool value
     gvals = [I(0), I(1), I(-1), I(127), I(128), I(-129), I(255), I(256), I(65535), I(65536), I(2 ** 31 - 1), I(2 ** 31), I(-2 ** 31 - 1),
              I(2 ** 32), I(2 ** 63 - 1), I(-2 ** 63), I(2 ** 53 + 1), F(0.0), F(-0.0), F(1.5), F(-1.5), F(255.9), F(256.0), F(-0.5), F(3e9), F(1e19),
@@ -429,7 +452,7 @@ def main(ck):
         "amd64 float64->int64 conversion rule (V.C03.Model.f2i)",
         "concurrent section: 8 goroutines / 8 spawned coroutines calling ONE registered function and ONE method of a registered struct with caller-tagged arguments, checked on the Go side, and the same under the race detector; a test, not a proof — it sees an interleaving defect only when the scheduler produces the interleaving (the seeded shared-buffer change mixes thousands of calls per run)",
         "harness/cmd/c17 (reflect.MakeFunc-built functions of every signature, struct T, ConvertFromIndex instantiations) and checks/C17.py",
-        "struct/slice/map/pointer/interface parameters are one kind KOther (reported as unsupported); of several results only the first is converted (a second `error` result is dropped — docs/go-integration.md does not describe the reflective registration at all, so this is recorded as behaviour, not judged); not modelled: ConvertFromIndex for arrays, class instances and string->bool, constructors/properties of reflected classes",
+        "struct/slice/map/pointer/interface parameters are one kind KOther (reported as unsupported); of several results only the first is converted (a second `error` result is dropped — docs/go-integration.md does not describe the reflective registration at all, so this is recorded as behaviour, not judged); not modelled: ConvertFromIndex for arrays, class instances and string->bool, properties of reflected classes",
     ]
     ok = ck.prove(deps=["C03"])
     binary, out = ck.go_build("c17")
@@ -485,6 +508,8 @@ def main(ck):
             base = "generic:%s<-%s" % (c["t"], c["v"]["k"])
         elif c["k"] == "method":
             base = "method:%s:args=%s" % (c["m"], "-".join(a["k"] for a in c["args"]) or "none")
+        elif c["k"] == "ctor":
+            base = "ctor:args=%s" % ("-".join(a["k"] for a in c["args"]) or "none")
         else:
             base = "func:(%s)->%s:args=%s" % (",".join(c["params"]), c["ret"] or "void", "-".join(a["k"] for a in c["args"]) or "none")
         if len(json.dumps(c)) > 4000:
@@ -513,5 +538,5 @@ def main(ck):
     ck.cov["outcomes"] = {k: sum(1 for o in outs if o["out"] == k) for k in ("val", "nil", "throw", "panic", "go")}
     ck.samples = [cases[40], cases[len(cases) // 2], cases[-1]]
     ck.finish(level="proof", evaluations=len(cases), distinct_nontrivial=len(nontriv),
-              rule="reflective path: every parameter kind (14 supported + an unsupported slice) x a per-kind pool (min, max, min-1, max+1 of the kind, 0, +-1, int64 limits, +-0.0, subnormal, float32 max / just above / 1e308, inf, NaN, empty, multi-byte, invalid UTF-8 and 64 KiB strings, values of every other script kind, null, array) x 5 result kinds at arity 1; every signature of arity 2 and 3 over the 14 kinds (196 + 2744) with pool-sampled arguments and a random result kind; POSITION matrix: every signature of arity 2 and 3 over {int, float64, string, bool} x result kind among them x every argument position holding one argument of another script sort (int, fractional float, non-numeric and numeric string, bool, null, array) while all other arguments are exactly of their parameter's sort; every result kind x boundary results at arity 0; 21 methods of a registered struct (nine with two or three parameters, with the position matrix); arguments with a history ($x = v1; $x = v2; f($x)) for 14 values x 8 parameter kinds; CONCURRENT: 8 workers x 4 000 calls each of one registered function and of one struct method, from goroutines and from spawned script coroutines, arguments tagged per caller and checked in Go, repeated under -race (4 x 300); generic path: ConvertFromIndex[T] for all 14 T x 41 scalar/boundary values (thorough: + 20 000 random ints/floats); non-trivial = distinct call with at least one parameter, or distinct generic conversion",
+              rule="reflective path: every parameter kind (14 supported + an unsupported slice) x a per-kind pool (min, max, min-1, max+1 of the kind, 0, +-1, int64 limits, +-0.0, subnormal, float32 max / just above / 1e308, inf, NaN, empty, multi-byte, invalid UTF-8 and 64 KiB strings, values of every other script kind, null, array) x 5 result kinds at arity 1; every signature of arity 2 and 3 over the 14 kinds (196 + 2744) with pool-sampled arguments and a random result kind; POSITION matrix: every signature of arity 2 and 3 over {int, float64, string, bool} x result kind among them x every argument position holding one argument of another script sort (int, fractional float, non-numeric and numeric string, bool, null, array) while all other arguments are exactly of their parameter's sort; every result kind x boundary results at arity 0; 21 methods of a registered struct (nine with two or three parameters, with the position matrix); the reflected constructor new T(args) on two structs (0-7 arguments, each position holding each of 20 values, surplus arguments, random tuples); arguments with a history ($x = v1; $x = v2; f($x)) for 14 values x 8 parameter kinds; CONCURRENT: 8 workers x 4 000 calls each of one registered function and of one struct method, from goroutines and from spawned script coroutines, arguments tagged per caller and checked in Go, repeated under -race (4 x 300); generic path: ConvertFromIndex[T] for all 14 T x 41 scalar/boundary values (thorough: + 20 000 random ints/floats); non-trivial = distinct call with at least one parameter, or distinct generic conversion",
               traces=len(terms))
